@@ -121,6 +121,30 @@ def server_cases(tier, rng):
             cs.append(mk_s(b"raaa00" + b32(struct.pack("<I", fs)), "domain", 10, 1, 1, owner, "fragsize", "fragsize=%d" % fs))
             cs.append(mk_s(b"oaaa00" + b32(bytes([255, 255, 255, 32, 32]) + struct.pack("<I", fs)), "domain", 10, 1, 1, owner, "fragsize", "options/frag=%d" % fs))
         cs.append(mk_s(b"oaaa00" + b32(bytes([255, 255, 1, 32, 32]) + struct.pack("<I", 2 ** 32 - 1)), "domain", 10, 1, 1, owner, "close", "options/close"))
+    # packets for the established session's identifier from a foreign address: every combination of acknowledgement and sequence
+    # number that would hit the chunk in flight (0) or the number expected next (1)
+    for letter in (b"c", b"C"):
+        for ack in (0, 1, 65535):
+            for seq in (0, 1, 2):
+                raw = struct.pack("<H", ack) + b"\x01" + struct.pack("<H", seq) + b"injected"
+                cs.append(mk_s(letter + b"aaa00" + b32(raw), "domain", rng.choice([10, 16, 5]), 1, 1, 0, "stray-packet", "packet/ack%d/seq%d" % (ack, seq)))
+    # the same message delivered many times (implementation only): what the session keeps must not grow with the repetitions
+    for owner in (0, 1):
+        for seq in (1, 2, 5, 100, 127, 128, 129, 40000):
+            raw = struct.pack("<H", 65535) + b"\x01" + struct.pack("<H", seq) + b"out-of-order"
+            c = mk_s(b"caaa00" + b32(raw), "domain", 10, 1, 1, owner, "repeat", "packet/seq%d" % seq)
+            c["line"] = "c12r 400 " + c["line"][5:]
+            c["model"] = False
+            c["key"] = ("r",) + c["key"]
+            c["tags"]["repeat"] = 400
+            cs.append(c)
+    for first in (b"vaaa" + b32(struct.pack("<I", 0x502)), b"mail", b"raaa00" + b32(struct.pack("<I", 65535)), b"zaaa00" + b"x" * 100):
+        c = mk_s(first, "domain", 10, 1, 1, 1, "repeat", "other")
+        c["line"] = "c12r 400 " + c["line"][5:]
+        c["model"] = False
+        c["key"] = ("r",) + c["key"]
+        c["tags"]["repeat"] = 400
+        cs.append(c)
     while len(cs) < n:
         letter = rng.choice(list(CMDS) * 8 + list(CMDS.upper()) * 2 + list("abdfghijkpqstuwx0189") + ["\x00", "\xff", "\\", "."])
         cache = rng.bytes(rng.choice([3, 3, 3, 3, 0, 1, 2])) if rng.below(4) == 0 else b"aaa"[:rng.choice([3, 3, 3, 3, 3, 0, 1, 2])]
@@ -236,6 +260,19 @@ def oracle(case, impl):
         return [("%s-%s" % (side, p[0]), "%s did not come back (%s) on %s" % (side, impl[:80], case["line"][:200]))]
     if side == "client":
         return []
+    if case["line"].startswith("c12r"):
+        if p[0] == "unpackable":
+            return []
+        f = dict(zip(p[0::2], p[1::2]))
+        rep = case.get("tags", {}).get("repeat", 400)
+        out = []
+        if int(f.get("future", 0)) > 128:
+            out.append(("kept-without-bound;what=parked-packets", "%s packets are parked on the session after %d deliveries of one message: %s" % (f["future"], rep, case["line"][:160])))
+        if int(f.get("inbuf", 0)) > 5 + 64 * 2:
+            out.append(("kept-without-bound;what=unread-octets", "%s octets wait on the session after %d deliveries of one message" % (f["inbuf"], rep)))
+        if int(f.get("allocKiB", 0)) > rep * 2048:
+            out.append(("alloc-unbounded", "%s KiB allocated for %d deliveries of one message: %s" % (f["allocKiB"], rep, case["line"][:160])))
+        return out
     if p[0] in ("unpackable", "setup-failed"):
         return [] if p[0] == "unpackable" else [("server-setup", "fixture could not be established")]
     out = []
@@ -271,8 +308,9 @@ def agree(case, impl, model):
 
 def shrink(case):
     f = case["line"].split()
-    if f[0] == "c12s":
-        head, ls = f[:5], f[5:]
+    if f[0] in ("c12s", "c12r"):
+        k = 5 if f[0] == "c12s" else 6
+        head, ls = f[:k], f[k:]
         for i in range(len(ls)):
             yield dict(case, line=" ".join(head + ls[:i] + ls[i + 1:]))
         for i, l in enumerate(ls):
